@@ -221,6 +221,10 @@ def run(prog: Program, rep: Report, tier: str):
         ok_new = a0 == ("attr", CLS, "__name__") and a1 == ("attr", CLS, "__bases__") and is_cls_dict(a2)
     rep.check(ok_new, "R19.3", q, f.loc, "new class = cls.__class__(cls.__name__, cls.__bases__, {**cls.__dict__, …})", "the slotted class is not rebuilt from the original's metaclass, name, bases and a copy of its dict", detail="rebuild")
     qn = all(any(e[0] == "setattr" and e[2] == "__qualname__" and e[3] == ("attr", CLS, "__qualname__") and e[1] == built.get(i) for e in pth.events) for i, pth in enumerate(rets))
+    mod = all(any(e[0] == "setattr" and e[2] == "__module__" and e[3] == ("attr", CLS, "__module__") and e[1] == built.get(i) for e in pth.events) or any(e[0] == "setitem" and is_cls_dict(e[1]) and e[2] == ("const", "__module__") for e in pth.events) for i, pth in enumerate(rets))
+    # (type() takes __module__ from the namespace it is given -- the copied one has it -- or from the calling frame: it is set explicitly, or left in the namespace)
+    kept = all(not any(e[0] == "eval" and e[1][0] == "call" and e[1][1][0] == "attr" and e[1][1][2] == "pop" and e[1][2][:1] == (("const", "__module__"),) for e in pth.events) for pth in rets)
+    rep.check((mod or kept) and bool(rets), "R19.3", q, f.loc, "__module__ of the original reaches the new class", "__module__ is removed from the copied namespace and not set on the new class: it would be the module that called type() (typelib.py.classes), and pickling by reference breaks", detail="module")
     rep.check(qn, "R19.3", q, f.loc, "__qualname__ is propagated to the new class", "__qualname__ is not propagated: type() resets it, nested classes lose their qualified name (pickle by reference breaks)", detail="qualname")
     # methods that hold the class in a closure cell (zero-argument super(), the __setattr__/__delattr__ dataclass(frozen=True)
     # generates) hold the *old* class: the functions of the copied namespace are re-bound (copies with fresh cells)
@@ -346,6 +350,15 @@ def run(prog: Program, rep: Report, tier: str):
         if st is not None and setters:
             # object.__getstate__ gives the pair only when some slot holds a value; otherwise the state is the bare instance dict
             shape = any(T.is_call_to(g, "builtins.isinstance") and g[2][:1] == (st,) for hp in hps for g, _po in hp.guards()) or any(T.contains(g, lambda y: y in (("attr", st, "__class__"), ("call", ("ref", "builtins.type"), (st,), ()))) for hp in hps for g, _po in hp.guards())
+            # ... and the right way round: a pair is iterated as it is, anything else is first made a 1-tuple
+            wrapped = ("tuple", (st,))
+            for hp in hps:
+                tup = [po for g, po in hp.guards() if T.is_call_to(g, "builtins.isinstance") and g[2][:1] == (st,) and T.contains(g[2][1], lambda y: y == ("ref", "builtins.tuple"))]
+                loops = [e[1] for e in hp.events if e[0] == "loop" and e[2] == 1 and T.contains(e[1], lambda y: y == st)]
+                if tup and loops:
+                    is_wrapped = T.contains(loops[0], lambda y: y == wrapped)
+                    if tup[0] == is_wrapped:
+                        shape = False
             rep.check(shape, "R19.4", hf.qualname, hf.loc, "the pickle hook tells the (dict, slots) pair from a bare instance dict", "the pickle hook assumes the state is always the (dict, slots) pair: when no slot holds a value (a frozen dataclass without fields, dict=True) the default state is the instance __dict__ itself, iterating it yields attribute *names* and copy / pickle raise AttributeError: 'str' object has no attribute 'items'", detail="hook-state-shape")
     except AnalysisError:
         rep.undecided("R19.4", q, f.loc, "pickle hook helper not found", detail="hook-setter")
@@ -358,4 +371,18 @@ def run(prog: Program, rep: Report, tier: str):
         if atoms and len(own_atoms) == len(atoms) and not via_lookup:
             own_only = True
     rep.check(bool(hook_paths) and not own_only, "R19.4", q, f.loc, "user pickle hooks are looked for along the MRO", "the 'no user hooks' test reads the class's own namespace only: a frozen class that *inherits* __getstate__/__setstate__ gets the generic __setstate__ planted over the inherited one while the inherited __getstate__ stays in use, and copy / pickle raise", detail="hook-inherited")
+    # the search for user hooks covers the class and its bases: of the MRO at most `object` (the last entry) may be left out
+    is_mro2 = lambda y: (y[0] == "call" and y[1][0] == "attr" and y[1][1] == CLS and y[1][2] == "mro") or y == ("attr", CLS, "__mro__")  # noqa: E731
+    bad_slice = []
+    for pth in rets:
+        for tm in pth.all_terms():
+            for x in T.walk(tm):
+                if x[0] == "comp" and T.contains(x, lambda y: y in (("const", "__getstate__"), ("const", "__setstate__"))):
+                    for it, _tg in x[3]:
+                        for y in T.walk(it):
+                            if y[0] == "sub" and is_mro2(y[1]) and y[2][0] == "slice":
+                                lo, hi = y[2][1], y[2][2]
+                                if lo not in (None, ("const", 0), ("const", None)) or hi not in (None, ("const", -1), ("const", None)):
+                                    bad_slice.append(T.show(y)[:40])
+    rep.check(not bad_slice, "R19.4", q, f.loc, "user hooks are looked for on the class and all its bases (object at most left out)", f"user-defined __getstate__/__setstate__ are looked for along {sorted(set(bad_slice))[:1]}, which leaves out the class itself or some of its bases: the generated __setstate__ silently replaces the user's", detail="hook-search-range")
     rep.check(ok_hook, "R19.4", q, f.loc, "the pickle hook is installed only for frozen classes without user __getstate__/__setstate__", "the __setstate__ hook is not guarded by frozen ∧ no user-defined __getstate__/__setstate__", detail="hook")
